@@ -34,7 +34,9 @@ func runC20(e *Engine, tier Tier) *PropRun {
 			assumed[k] = true
 		}
 	}
-	e.prepareExempt("C20", e.sourceFns(func(fn *ssa.Function, file string) bool { return fn.Parent() == nil && strings.HasPrefix(file, "pkg/sql/tokenizer/") }), opts)
+	e.prepareExempt("C20", e.sourceFns(func(fn *ssa.Function, file string) bool {
+		return fn.Parent() == nil && strings.HasPrefix(file, "pkg/sql/tokenizer/")
+	}), opts)
 	fns = e.sourceFns(func(fn *ssa.Function, file string) bool {
 		if fn.Parent() != nil {
 			return false
